@@ -32,6 +32,7 @@ pub fn strata(quick: bool) -> Vec<Stratum> {
         while_: true,
         repeat: true,
         do_: true,
+        do_ranges: vec![],
         defs: vec!["f", "g"],
         locals: vec!["x"],
         vars: vec!["v"],
@@ -50,6 +51,7 @@ pub fn strata(quick: bool) -> Vec<Stratum> {
         while_: true,
         repeat: false,
         do_: false,
+        do_ranges: vec![],
         defs: vec![],
         locals: vec!["x", "y"],
         vars: vec![],
@@ -69,6 +71,7 @@ pub fn strata(quick: bool) -> Vec<Stratum> {
         while_: true,
         repeat: true,
         do_: true,
+        do_ranges: vec![],
         defs: vec![],
         locals: vec![],
         vars: vec![],
@@ -87,6 +90,7 @@ pub fn strata(quick: bool) -> Vec<Stratum> {
         while_: false,
         repeat: false,
         do_: true,
+        do_ranges: vec![],
         defs: vec![],
         locals: vec![],
         vars: vec![],
@@ -105,6 +109,7 @@ pub fn strata(quick: bool) -> Vec<Stratum> {
         while_: false,
         repeat: false,
         do_: false,
+        do_ranges: vec![],
         defs: vec!["f", "g"],
         locals: vec!["x"],
         vars: vec!["v"],
@@ -130,6 +135,7 @@ pub fn strata(quick: bool) -> Vec<Stratum> {
         while_: false,
         repeat: false,
         do_: false,
+        do_ranges: vec![],
         defs: vec!["g"],
         locals: vec!["y"],
         vars: vec![],
@@ -144,6 +150,26 @@ pub fn strata(quick: bool) -> Vec<Stratum> {
         body.extend(v);
         vec![N::Int(7), N::Var("v"), N::Def("f", body), N::Int(2), N::Name("f")]
     }
+    // S8: loops of different kinds inside each other, every counted loop really iterating (its range is
+    // part of the node), break and I/J at every level
+    let mixed = Grammar {
+        atoms: vec![N::Int(1), N::Flag(true), N::Flag(false), p("drop"), p("print")],
+        if_: true,
+        if_else: false,
+        case_arms: 0,
+        until: true,
+        while_: true,
+        repeat: true,
+        do_: false,
+        do_ranges: vec![(2, 0)],
+        defs: vec![],
+        locals: vec![],
+        vars: vec![],
+        index_words: true,
+        breaks: true,
+        max_depth: 5,
+        wraps: vec![],
+    };
     let mut body = body;
     let mut skel = skel;
     if quick {
@@ -158,6 +184,7 @@ pub fn strata(quick: bool) -> Vec<Stratum> {
         Stratum { name: "S4-counted-loops", gr: counted, g0: G::top(), wrap: id, max_nodes: if quick { 5 } else { 6 } },
         Stratum { name: "S5-definitions", gr: defs, g0: G::top(), wrap: id, max_nodes: if quick { 5 } else { 7 } },
         Stratum { name: "S6-nested-definition-names", gr: shadow, g0: shadow_g0, wrap: wrap_shadow, max_nodes: if quick { 5 } else { 7 } },
+        Stratum { name: "S8-mixed-loop-nesting", gr: mixed, g0: G::top(), wrap: id, max_nodes: if quick { 5 } else { 6 } },
     ]
 }
 
@@ -169,6 +196,19 @@ pub fn classify(e: &Xerr) -> String {
         e if is_limit_error(e, "insn") => "Fuel".into(),
         other => format!("Other({})", err_kind(other)),
     }
+}
+
+/// the error class the implementation gives to a read of a local slot the call never reached
+/// (measured on the tree under test, not matched by message text)
+pub fn unset_local_class() -> &'static str {
+    static C: std::sync::OnceLock<String> = std::sync::OnceLock::new();
+    C.get_or_init(|| {
+        let mut xs = boot();
+        match guarded(|| xs.eval(": unset-probe false if 1 local p then p ; unset-probe")) {
+            Ok(Err(e)) => classify(&e),
+            _ => "<none>".to_string(),
+        }
+    })
 }
 
 pub struct Outcome {
@@ -213,45 +253,63 @@ pub fn check_program(base: &Xstate, prog: &[N]) -> CaseResult {
             return CaseResult { agree: true, skipped: Some("not-in-language"), mclass: String::new(), iclass: String::new(), nontrivial: false, steps: 0, detail: String::new() }
         }
     };
-    let mut m = M::new(&rp, 2 * LIMIT);
-    let mr = m.run();
-    let mclass = match &mr {
-        Ok(()) => "Ok".to_string(),
-        Err(e) => format!("{:?}", e),
-    };
-    let steps = m.steps;
-    let skip = |why| CaseResult { agree: true, skipped: Some(why), mclass: mclass.clone(), iclass: String::new(), nontrivial: false, steps, detail: String::new() };
-    if m.read_unset_local {
-        // reading a local whose declaration was never executed: outside the documented language
-        return skip("reads-unset-local");
-    }
-    if mclass != "Fuel" && steps > LIMIT / 2 {
-        return skip("indeterminate-long-run");
-    }
-    let io = match run_impl(base, &src, rp.ncells) {
-        Ok(o) => o,
-        Err(pmsg) => {
-            return CaseResult { agree: false, skipped: None, mclass, iclass: "PANIC".into(), nontrivial: false, steps, detail: format!("panic: {}", pmsg) }
+    // a local read in a call that never executed its declaration has no documented value; what the
+    // property needs is that it never shows another call's data. Three consistent readings are
+    // accepted: the per-call slot rule of the implementation (nil below the highest slot the call
+    // initialised, a failure otherwise), always nil, always a failure at that point.
+    let mut verdicts: Vec<(bool, String, String, usize, bool)> = vec![];
+    let mut io_cache: Option<Outcome> = None;
+    for mode in 0..3u8 {
+        let mut m = M::new(&rp, 2 * LIMIT);
+        m.unset_mode = mode;
+        let mr = m.run();
+        let mclass = match &mr {
+            Ok(()) => "Ok".to_string(),
+            Err(e) => format!("{:?}", e),
+        };
+        let steps = m.steps;
+        if mclass != "Fuel" && steps > LIMIT / 2 {
+            return CaseResult { agree: true, skipped: Some("indeterminate-long-run"), mclass, iclass: String::new(), nontrivial: false, steps, detail: String::new() };
         }
-    };
-    let mstack: Vec<String> = m.ds.iter().map(|v| v.render()).collect();
-    let mcells: Vec<String> = m.cells.iter().map(|v| v.render()).collect();
-    let agree = if mclass == "Fuel" {
-        io.class == "Fuel"
-    } else if mclass == "Ok" {
-        io.class == "Ok" && io.stack == mstack && io.cells == mcells && io.out == m.out
-    } else {
-        io.class == mclass && io.cells == mcells && io.out == m.out
-    };
-    let nontrivial = mclass == "Ok" && (m.back_jumps > 0 || (m.branches_taken > 0 && m.branches_skipped > 0) || m.calls > 0);
-    let detail = if agree {
-        String::new()
-    } else {
-        format!(
-            "model: {} stack={:?} cells={:?} out={:?} | impl: {} stack={:?} cells={:?} out={:?}",
-            mclass, mstack, mcells, m.out, io.class, io.stack, io.cells, io.out
-        )
-    };
+        if io_cache.is_none() {
+            io_cache = Some(match run_impl(base, &src, rp.ncells) {
+                Ok(o) => o,
+                Err(pmsg) => {
+                    return CaseResult { agree: false, skipped: None, mclass, iclass: "PANIC".into(), nontrivial: false, steps, detail: format!("panic: {}", pmsg) }
+                }
+            });
+        }
+        let io = io_cache.as_ref().unwrap();
+        let mstack: Vec<String> = m.ds.iter().map(|v| v.render()).collect();
+        let mcells: Vec<String> = m.cells.iter().map(|v| v.render()).collect();
+        let agree = if mclass == "Fuel" {
+            io.class == "Fuel"
+        } else if mclass == "Ok" {
+            io.class == "Ok" && io.stack == mstack && io.cells == mcells && io.out == m.out
+        } else if mclass == "Unbound" {
+            io.class == unset_local_class() && io.cells == mcells && io.out == m.out
+        } else {
+            io.class == mclass && io.cells == mcells && io.out == m.out
+        };
+        let nontrivial = mclass == "Ok" && (m.back_jumps > 0 || (m.branches_taken > 0 && m.branches_skipped > 0) || m.calls > 0);
+        let detail = if agree {
+            String::new()
+        } else {
+            format!(
+                "model{}: {} stack={:?} cells={:?} out={:?} | impl: {} stack={:?} cells={:?} out={:?}",
+                if m.read_unset_local { " (a local is read in a call that never executed its declaration: expected nil or a failure there)" } else { "" },
+                mclass, mstack, mcells, m.out, io.class, io.stack, io.cells, io.out
+            )
+        };
+        let unset = m.read_unset_local;
+        verdicts.push((agree, mclass, detail, steps, nontrivial));
+        if agree || !unset {
+            break;
+        }
+    }
+    let pick = verdicts.iter().position(|v| v.0).unwrap_or(0);
+    let (agree, mclass, detail, steps, nontrivial) = verdicts.swap_remove(pick);
+    let io = io_cache.unwrap();
     CaseResult { agree, skipped: None, mclass, iclass: io.class, nontrivial, steps, detail }
 }
 
@@ -361,6 +419,96 @@ pub fn run(cfg: &Cfg) -> i32 {
         ]));
         println!("C01 {}: {} programs, {:.1}s", st.name, st_eval.load(Ordering::Relaxed), t0.elapsed().as_secs_f64());
     }
+    // ---- S9: caller x callee. Every callee body (locals declared under branches, read afterwards) under
+    // every caller body (own locals, the call in every position incl. last-before-`;`): a call starts
+    // with no locals of its own and returns to a caller whose locals are as it left them
+    if only.as_deref().map(|o| "S9".starts_with(o) || o.starts_with("S9")).unwrap_or(true) {
+        let t0 = std::time::Instant::now();
+        let callee = Grammar {
+            atoms: if cfg.quick() { vec![N::Int(1), N::Flag(false)] } else { vec![N::Int(1), N::Flag(false), N::Flag(true), p("drop")] },
+            if_: true,
+            if_else: false,
+            case_arms: 0,
+            until: false,
+            while_: false,
+            repeat: false,
+            do_: false,
+            do_ranges: vec![],
+            defs: vec![],
+            locals: if cfg.quick() { vec!["p"] } else { vec!["p", "q"] },
+            vars: vec![],
+            index_words: false,
+            breaks: false,
+            max_depth: 3,
+            wraps: vec![],
+        };
+        let caller = Grammar { atoms: if cfg.quick() { vec![N::Int(7), N::Flag(true)] } else { vec![N::Int(7), N::Flag(true), p("drop")] }, locals: vec!["a"], ..callee.clone() };
+        let callee_g0 = G { in_def: true, loops: vec![], flows: 1, locals: vec![], defs: vec![], vars: vec![], depth: 1 };
+        let caller_g0 = G { in_def: true, loops: vec![], flows: 1, locals: vec![], defs: vec!["g"], vars: vec![], depth: 1 };
+        let (ncallee, ncaller) = if cfg.quick() { (5, 4) } else { (6, 4) };
+        let mut callees: Vec<Vec<N>> = vec![];
+        for s in 0..=ncallee {
+            let mut acc = vec![];
+            gen_seq(&callee, s, &callee_g0, &mut acc, &mut |b, _| {
+                // only bodies that both declare and read a local
+                let src = source(b);
+                if src.contains("local") {
+                    callees.push(b.clone())
+                }
+            });
+        }
+        let mut callers: Vec<Vec<N>> = vec![];
+        for s in 0..=ncaller {
+            let mut acc = vec![];
+            gen_seq(&caller, s, &caller_g0, &mut acc, &mut |b, _| {
+                if b.iter().any(|n| source(std::slice::from_ref(n)).split_whitespace().any(|w| w == "g")) {
+                    callers.push(b.clone())
+                }
+            });
+        }
+        let n9 = AtomicU64::new(0);
+        let nt9 = AtomicU64::new(0);
+        par_run(cfg.threads, callees.len(), 4, |_t, pull| {
+            let base = boot();
+            let mut local: BTreeMap<String, u64> = BTreeMap::new();
+            while let Some(r) = pull() {
+                for ci in r {
+                    for f in &callers {
+                        let whole = vec![N::Def("g", callees[ci].clone()), N::Def("f", f.clone()), N::Int(1), N::Int(2), N::Name("f")];
+                        let cr = check_program(&base, &whole);
+                        n9.fetch_add(1, Ordering::Relaxed);
+                        if let Some(why) = cr.skipped {
+                            bump(&mut local, &format!("skipped:{}", why));
+                            continue;
+                        }
+                        bump(&mut local, &format!("outcome:{}", cr.mclass));
+                        if cr.nontrivial {
+                            nt9.fetch_add(1, Ordering::Relaxed);
+                        }
+                        if !cr.agree {
+                            let key = format!("{}->{}|caller-callee", cr.mclass, cr.iclass);
+                            let w = (sz(&whole) as u64) * 1000 + source(&whole).len() as u64;
+                            rep.report_w(&key, w, || {
+                                jo(vec![("kind", js("eval")), ("stratum", js("S9-caller-callee")), ("source", js(source(&whole))), ("insn_limit", ji(LIMIT)), ("difference", js(cr.detail.clone()))])
+                            });
+                        }
+                    }
+                }
+            }
+            outcomes.merge(&local);
+        });
+        total_eval.fetch_add(n9.load(Ordering::Relaxed), Ordering::Relaxed);
+        total_nontriv.fetch_add(nt9.load(Ordering::Relaxed), Ordering::Relaxed);
+        per_stratum.push(jo(vec![
+            ("stratum", js("S9-caller-callee")),
+            ("callee_bodies", ji(callees.len())),
+            ("caller_bodies", ji(callers.len())),
+            ("max_nodes", js(format!("callee {} / caller {}", ncallee, ncaller))),
+            ("programs", ji(n9.load(Ordering::Relaxed))),
+            ("wall_s", J::F(t0.elapsed().as_secs_f64())),
+        ]));
+        println!("C01 S9-caller-callee: {} x {} = {} programs, {:.1}s", callees.len(), callers.len(), n9.load(Ordering::Relaxed), t0.elapsed().as_secs_f64());
+    }
     // ---- S7: a later source never sees loop indices of an earlier one, however that one ended
     // (structurally a new source starts outside every loop): after every program of the counted-loop
     // grammar, `I` and `J`-in-one-loop evaluated as the next source must report the loop underflow
@@ -426,7 +574,7 @@ pub fn run(cfg: &Cfg) -> i32 {
     ev.add("outcome_classes", outcomes.json());
     ev.assumptions = vec![
         "the structural evaluator in mc/src/cf.rs is the reference semantics (documented language: README + pinned suite behaviour)".into(),
-        "a program that reads a local whose declaration was never executed is outside the documented language and skipped (counted)".into(),
+        "a local read in a call that never executed its declaration has no documented value: nil or a failure at that point are both accepted (consistently per program, or by the per-call slot rule), any other value is a violation".into(),
         "error point = error class + stdout + global variables at the failure; the data stack after a failing primitive is not compared".into(),
     ];
     if outcomes.get("skipped:not-in-language") > 0 {
